@@ -231,6 +231,52 @@ mod verif_methods {
 			k += 1;
 		}
 	}
+	// warm-up, the stream starting with the construction value (the documented way to seed a method): only elements that exist are
+	// compared, so element 0 is a peak when it is > element 1, element 1 when it is >= element 0 and > element 2; nothing fires at step 0
+	#[kani::proof]
+	#[kani::unwind(10)]
+	fn vk_reversal_upper_warmup_l3() {
+		let x0 = letter();
+		let mut m = UpperReversalSignal::new(1, 1, &x0).unwrap();
+		let s0 = m.next(&x0);
+		assert!(s0.is_none());
+		let x1 = letter();
+		let s1 = m.next(&x1);
+		assert!((s1 == Action::BUY_ALL) == (x0 > x1));
+		let x2 = letter();
+		let s2 = m.next(&x2);
+		assert!((s2 == Action::BUY_ALL) == (x1 >= x0 && x1 > x2));
+	}
+	#[kani::proof]
+	#[kani::unwind(10)]
+	fn vk_reversal_lower_warmup_l3() {
+		let x0 = letter();
+		let mut m = LowerReversalSignal::new(1, 1, &x0).unwrap();
+		let s0 = m.next(&x0);
+		assert!(s0.is_none());
+		let x1 = letter();
+		let s1 = m.next(&x1);
+		assert!((s1 == Action::BUY_ALL) == (x0 < x1));
+		let x2 = letter();
+		let s2 = m.next(&x2);
+		assert!((s2 == Action::BUY_ALL) == (x1 <= x0 && x1 < x2));
+	}
+	// (left, right) = (2, 1): warm-up with a truncated left side, 4 steps
+	#[kani::proof]
+	#[kani::unwind(10)]
+	fn vk_reversal_upper_warmup_l4() {
+		let x0 = letter();
+		let mut m = UpperReversalSignal::new(2, 1, &x0).unwrap();
+		assert!(m.next(&x0).is_none());
+		let x1 = letter();
+		assert!((m.next(&x1) == Action::BUY_ALL) == (x0 > x1));
+		let x2 = letter();
+		assert!((m.next(&x2) == Action::BUY_ALL) == (x1 >= x0 && x1 > x2));
+		let x3 = letter();
+		assert!((m.next(&x3) == Action::BUY_ALL) == (x2 >= x0 && x2 >= x1 && x2 > x3));
+		let x4 = letter();
+		assert!((m.next(&x4) == Action::BUY_ALL) == (x3 >= x1 && x3 >= x2 && x3 > x4));
+	}
 	#[kani::proof]
 	#[kani::unwind(10)]
 	fn vk_reversal_lower_l3() {
